@@ -813,6 +813,43 @@ def rule_limit_forward(repo: Repo, rep: Report) -> int:
     return n
 
 
+def rule_result_dtype(repo: Repo, rep: Report, classes) -> int:
+    """RESULT-DTYPE: a constraint returns a tensor of the input's dtype.  A result buffer created with
+    torch.empty / zeros / ones / full(shape...) gets the DEFAULT dtype (float32) unless `dtype=` names the input's: per-item
+    results stored into it are cast - a complex signal loses its imaginary part (UserWarning only), and the limit is
+    enforced on another signal than the one returned.  `*_like(x)` and `new_*` inherit the dtype."""
+    n = 0
+    for ci in classes:
+        for m, fi in ci.methods.items():
+            if m.startswith("__") or m in ("extra_repr",):
+                continue
+            params = [p_ for p_ in fi.params if p_ not in ("self", "args", "kwargs")]
+            if not params:
+                continue
+            sig = params[0]
+            for st in ast.walk(fi.node):
+                if not (isinstance(st, ast.Assign) and len(st.targets) == 1 and isinstance(st.targets[0], ast.Name) and isinstance(st.value, ast.Call)):
+                    continue
+                nm = call_name(st.value) or ""
+                if nm not in ("torch.empty", "torch.zeros", "torch.ones", "torch.full"):
+                    continue
+                buf = st.targets[0].id
+                # does the shape come from the signal, and are items of a signal-derived computation stored into it?
+                shaped = any(isinstance(x_, ast.Name) and x_.id == sig for a_ in st.value.args for x_ in ast.walk(a_))
+                stores = [s_ for s_ in ast.walk(fi.node) if isinstance(s_, ast.Assign) and any(isinstance(t_, ast.Subscript) and isinstance(t_.value, ast.Name) and t_.value.id == buf for t_ in s_.targets) and any(isinstance(x_, ast.Name) and x_.id == sig for x_ in ast.walk(s_.value))]
+                rets = any(isinstance(r_, ast.Return) and r_.value is not None and any(isinstance(x_, ast.Name) and x_.id == buf for x_ in ast.walk(r_.value)) for r_ in ast.walk(fi.node))
+                if not (shaped and stores and rets):
+                    continue
+                n += 1
+                dt = next((k.value for k in st.value.keywords if k.arg == "dtype"), None)
+                if dt is not None and any(isinstance(x_, ast.Name) and x_.id == sig for x_ in ast.walk(dt)):
+                    rep.ok("RESULT-DTYPE", fi, f"{ci.name}.{m}: result buffer {unparse(st)[:70]}", "created in the input's dtype", node=st, nontrivial=False)
+                else:
+                    rep.violation("RESULT-DTYPE", fi, f"{ci.name}.{m}: result buffer `{buf}` without the input's dtype", f"`{unparse(st)[:80]}` creates the returned buffer in {'the dtype ' + unparse(dt) if dt is not None else 'the default dtype (float32)'} and `{unparse(stores[0])[:70]}` stores per-item results of `{sig}` into it: a complex (or float64) signal is cast on the way - the imaginary part is dropped with a warning only, and the returned signal no longer meets the limit that was enforced on the item", node=st)
+    rep.ok("RESULT-DTYPE", "kaira::constraints", f"{len(classes)} classes scanned for result buffers that do not inherit the input's dtype", "none found" if n == 0 else f"{n} buffer(s) judged", nontrivial=False)
+    return n + 1
+
+
 def rule_ctor_alias(repo: Repo, rep: Report, classes) -> int:
     """CTOR-ALIAS: a constructor must not work in place on a tensor that shares storage with one of its arguments
     (`t = limit.detach(); t.sqrt_()`): `detach()`, `.data`, `view` and a conditional with such an arm hand out the caller's
@@ -890,6 +927,7 @@ def run(repo: Repo, rep: Report, tier: str) -> None:
     n += rule_chunk_cover(repo, rep, [c_ for mi_ in repo.modules.values() if mi_.relpath.startswith("kaira/constraints/") for c_ in mi_.classes.values()])
     n += rule_state_alias(repo, rep, [c_ for mi_ in repo.modules.values() if mi_.relpath.startswith("kaira/constraints/") for c_ in mi_.classes.values()])
     n += rule_ctor_alias(repo, rep, [c_ for mi_ in repo.modules.values() if mi_.relpath.startswith("kaira/constraints/") for c_ in mi_.classes.values()])
+    n += rule_result_dtype(repo, rep, [c_ for mi_ in repo.modules.values() if mi_.relpath.startswith("kaira/constraints/") for c_ in mi_.classes.values()])
     # composite = sequential loop (shared with C17)
     from .c17 import seq_loop
 
